@@ -198,3 +198,57 @@ func ZZ_C02_poll_on_entry() {
 	zz.Assert(err != nil && err.Error() == ErrInterrupt.Error(), "C02.entry/returns-execution-interrupted")
 	zz.Assert(zz.TraceLen() == 0, "C02.entry/nothing-executed")
 }
+
+// ZZ_C02_library_functions: the cancellation that counts is the one of the run
+// that *calls*: script functions defined by an earlier run on the same
+// environment (a prelude executed under another context) and called by a run
+// whose context is then cancelled stop like any other code - whatever their
+// arity (the call paths differ at 0-4 / 5+ parameters and for variadic
+// functions), called plainly, through go, under try, as a deferred call.
+func ZZ_C02_library_functions() {
+	params := []string{"", "a", "a, b, c, d", "a, b, c, d, g", "a...", "a, b..."}
+	args := []string{"", "1", "1, 2, 3, 4", "1, 2, 3, 4, 5", "1, 2", "1, 2, 3"}
+	pi := zz.Choose(len(params))
+	bodies := []struct{ name, src string }{
+		{"loop", "for { p(1) }"},
+		{"c-for", "for i = 0; true; i++ { p(1) }"},
+		{"recursion", "func zzr() { p(1); zzr() }; zzr()"},
+		{"chan-receive", "p(1); <-ch"},
+		{"for-in-chan", "p(1); for x in ch { }"},
+	}
+	bi := zz.Choose(len(bodies))
+	blocking := bi >= 3
+	calls := []struct{ name, pre, post string }{
+		{"plain", "", ""},
+		{"in-try", "try { ", " } catch e { p(98) }"},
+		{"left-of-??", "x = (", ") ?? p(98)"},
+		{"deferred", "func() { defer ", " }()"},
+		{"in-list", "x = [", ", p(98)]"},
+	}
+	ci := zz.Choose(len(calls))
+	e := env.NewEnv()
+	e.Define("p", func(i int64) int64 { zz.Probe(int(i)); return i })
+	e.Define("ch", make(chan interface{}))
+	// the prelude runs to completion under a context of its own
+	_, perr := ExecuteContext(zzNewCtx(1000000), e, &Options{Debug: false}, "lib = func("+params[pi]+") { "+bodies[bi].src+" }")
+	zz.Assert(perr == nil, "C02.library/prelude-runs")
+	cancelAt := 1000000
+	if !blocking {
+		cancelAt = 3 + zz.Choose(4)
+	}
+	ctx := zzNewCtx(cancelAt)
+	if blocking {
+		go ctx.cancel()
+	}
+	id := bodies[bi].name + "/" + []string{"0", "1", "4", "5-reflect-path", "variadic", "fixed-then-variadic"}[pi] + "/" + calls[ci].name
+	zz.ResetTrace()
+	zz.Budget(3000000)
+	zz.UnwindIsViolation("terminates.C02.library/" + id)
+	zz.DeadlockIsViolation("terminates.C02.library/" + id)
+	_, err := ExecuteContext(ctx, e, &Options{Debug: false}, calls[ci].pre+"lib("+args[pi]+")"+calls[ci].post+"\np(99)")
+	zz.Assert(ctx.closed, "C02.cancellation-was-delivered/library/"+id)
+	zz.Assert(err != nil && err.Error() == ErrInterrupt.Error(), "C02.returns-execution-interrupted/library/"+id)
+	for _, t := range zz.Trace() {
+		zz.Assert(t != 99 && t != 98, "C02.no-statement-after-the-interrupted-one/library/"+id)
+	}
+}
